@@ -60,6 +60,7 @@ fn one_history(cfg: &Cfg, r: &mut Report, rt: &tokio::runtime::Runtime, rng: &mu
         old: Vec::new(),
         pending: Vec::new(),
         fault_armed: 0,
+        any_cache_fault: false,
         last_fault: "",
         ensured: false,
         step: 0,
@@ -526,7 +527,7 @@ impl Hist {
                 let path = format!("/threads/{}/provider-cursor-rotate", enc(&tid));
                 // independent of the answer: does the raw log hold a cursor frame of this thread that the filters select?
                 // (a filter selects a frame only if the frame carries that very value)
-                let no_cursor_selected = if idc == "real" && self.pending.is_empty() {
+                let no_cursor_selected = if idc == "real" && self.pending.is_empty() && (!self.any_cache_fault || self.store.streams_dir().is_file()) {
                     crate::truth::parse_log(&self.store.log_bytes_settled()).ok().map(|frames| {
                         let want = |k: &str| body.get(k).and_then(|x| x.as_str()).map(|s| s.to_string());
                         let (fp, fe, fm) = (want("provider"), want("endpoint"), want("model"));
@@ -609,7 +610,9 @@ impl Hist {
                         Some(x) => x.as_u64().and_then(|m| u32::try_from(m).ok()).map(Some),
                     };
                     match (stride, max_new) {
-                        (Some(st), Some(mx)) if idc == "real" && self.pending.is_empty() => {
+                        // judged only where no cache file can be stale: no cache fault so far in this case, or the cache
+                        // root is currently unusable (a well-formed but stale cache changing answers is C04's known finding)
+                        (Some(st), Some(mx)) if idc == "real" && self.pending.is_empty() && (!self.any_cache_fault || self.store.streams_dir().is_file()) => {
                             crate::c09::nothing_to_compact(&self.store.log_bytes_settled(), &tid, st, mx)
                         }
                         _ => None,
@@ -1014,6 +1017,7 @@ impl Hist {
                         "delete_all_caches_and_index"
                     }
                 };
+                self.any_cache_fault = true;
                 self.fault_armed = if what == "cache_root_replaced_by_file" { 10_000 } else { 8 };
                 self.last_fault = what;
                 r.count("cache_faults_applied", 1);
